@@ -69,6 +69,16 @@ ASSUMPTIONS = [
     'NumPy basic indexing (Nb.C06.npIndex / NdArr.index), Python slices (Basic/PySlice) and NumPy slice assignment '
     '(setAxis) are specifications, validated here through the correspondence run',
     'netCDF / HDF5 readers (nibabel.externals.netcdf, h5py), gzip/bz2/zstd, indexed_gzip, mmap are external',
+    'PAR/REC: the fast-path guard and the offset/order constants of its fileslice call are REGENERATED from the working '
+    'tree (Generated/C03Parrec.lean, a small NumPy-expression translator in regen(); the shape of _get_unscaled is checked '
+    'structurally) and proved equal to the model guard; which REC slices make up the image (get_sorted_slice_indices, '
+    'truncation, strict/lax sorting) is property C20 - here the index vector is computed by the harness from an '
+    'independent statement of the rule and the proxy is proved/checked for ARBITRARY index vectors',
+    'ECAT: get_frame_order is modelled on the id column (insertion sort = argsort on distinct ids); reading the matrix '
+    'list and sub-headers from the file is external (harness writes them itself)',
+    'frozen_reads: header objects live on a modelled heap, the proxy holds a reference and copies; that Python object '
+    'identity behaves like heap cells is the modelling assumption, tied by the frozen-read stream (edits of the very '
+    'header object the proxy was built from, and of the loaded image header, between two reads)',
 ]
 RULE = ('one stream per proxy implementation (NIfTI-1 single/pair, NIfTI-2, Analyze, SPM99, MGH, direct ArrayProxy in C '
         'and F order, AFNI BRIK/HEAD with per-sub-brick factors incl. zero, multi-frame ECAT7 incl. frames stored out of '
@@ -76,7 +86,15 @@ RULE = ('one stream per proxy implementation (NIfTI-1 single/pair, NIfTI-2, Anal
         'reshaped proxy, explicit reshape() and copy() of F- and C-order proxies) x random basic index tuples (ints, slices of any sign incl. out-of-range '
         'bounds, Ellipsis, newaxis, out-of-range ints) x mmap x keep_file_open x compression x indexed_gzip flag x '
         '{path, open file object at a random position}, an optional earlier read on the same proxy; exhaustive frame-axis '
-        'slices for ECAT. Non-trivial = index is not all-full-slices; distinct by (format, build, config, index).')
+        'slices for ECAT. PAR/REC additionally with non-default load options: permit_truncated on TRUNCATED recordings '
+        'whose lost slices sit anywhere in the REC file (tail, end of a middle volume, any slices of one volume, a whole '
+        'volume, random rows; volume-major / shuffled / slice-major / reversed-volume storage) so that the kept index '
+        'vector is sequential, ascending WITH HOLES or unordered, x strict_sort x scaling dv/fp x nib.load / '
+        'from_filename / from_file_map / direct proxy construction. ECAT: whole array per build, matrix lists not in '
+        'ascending id order x integer frame index x new axes; element numbers are FILE rows and every element carries the '
+        'sub-header row whose scale factor it was multiplied with. AFNI: >= 2 sub-bricks with non-zero factors x new axes '
+        'after the sub-brick axis. frozen-read: header object edited (shape, dtype, offset, slope/inter) between two reads. '
+        'Non-trivial = index is not all-full-slices; distinct by (format, build, config, index, header ops).')
 
 # ------------------------------------------------------------------ regenerated from the working tree
 
